@@ -349,6 +349,19 @@ def run_bytes(case: dict, trace: bool = False) -> dict:
                     break
                 struct = [r.data.get(b'BODYSTRUCTURE') for r in c.untagged
                           if r.name == b'FETCH' and r.num == seq][0]
+                header_noted = False
+                if struct and not isinstance(struct[0], list):
+                    # not a multipart: part 1 is the body of the message
+                    c6 = do({'kind': 'fetch', 'set': str(seq),
+                             'attrs': ['BODY.PEEK[1]']})
+                    if c6 is not None and c6.ok:
+                        one, _ = _data(c6, seq, b'BODY[1]')
+                        if bytes(one or b'') != bytes(txt or b''):
+                            bad('part-one', '%s: not a multipart, but '
+                                'BODY[1] (%d octets) is not BODY[TEXT] (%d)'
+                                % (what, len(one or b''), len(txt or b'')),
+                                'part-one')
+                            break
                 for path, size in list(leaf_parts(struct))[:8]:
                     sect = '.'.join(str(x) for x in path)
                     c4 = do({'kind': 'fetch', 'set': str(seq),
@@ -371,10 +384,17 @@ def run_bytes(case: dict, trace: bool = False) -> dict:
                             whole = plen + len(mime or b'')
                         diag = 'includes-part-header' if size == whole \
                             else 'part-size-other'
+                        if diag == 'includes-part-header' and header_noted:
+                            # the listed finding, once per message: go on
+                            # with the other parts, it must not shadow them
+                            continue
                         bad('part-size', '%s: BODYSTRUCTURE announces %d '
                             'octets for part %s, BODY[%s] returns %d (part '
                             'with its header: %d)'
                             % (what, size, sect, sect, plen, whole), diag)
+                        if diag == 'includes-part-header':
+                            header_noted = True
+                            continue
                         break
                 if any(v['property'] == 'C03' for v in ctx.violations):
                     break
